@@ -20,6 +20,18 @@ its own PairingConfig and a recording delegate driven by two simulated users. Mo
   reconnect after bonding: disconnect, reconnect (same and swapped roles), central
             encrypt(): snooped (EDIV, Rand, LTK) vs the peripheral's provider
   ctkd      SMP over BR/EDR (link encryption mocked exactly as tests/self_test.py does)
+  roles     the SMP initiator is the link Central (pair(), or pair() after a Security Request) or the link
+            Peripheral (pair() on the peripheral's connection): the whole IO table for each; Table 2.8 is read
+            from the SMP initiator/responder point of view, never by link role
+  hardware  the delegates are strict about their IO capability: a device without a keyboard cannot supply a
+            passkey, one without a display shows nothing, one without yes/no cannot compare; every such request
+            is recorded and is a violation
+  users     answers (accept, confirm, compare, passkey) arrive after a think time: virtual seconds (long after
+            everything in flight was delivered) or a few loop turns (between two protocol messages), on either
+            side; a refusal, however late, ends in failure on both sides, no stored keys, no encrypted link, and
+            nobody reports completion while its own user still looks at a prompt
+  again     further pairings on the SAME connection (after a refused/failed one, after a completed one): judged
+            by the same oracles; keys carry the suffix /again-after-<previous outcome>
 """
 from __future__ import annotations
 
@@ -36,7 +48,11 @@ RULE = ('one case = one pairing of two independently configured devices (plus re
         '5x5 IO-capability cells x {legacy, SC} x MITM requested by {both, initiator only, responder only, '
         'nobody}; mix: seeded product of SC/MITM/bonding per side x 4 key-distribution masks (2 per side) x '
         'who starts x user answers x passkey boundary values x delay; neg/tamper: every association model x '
-        'every negative answer / every tamperable PDU x sender; a case is non-trivial when phase 2 was '
+        'every negative answer / every tamperable PDU x sender; ptable/srtable: the 5x5x2x4 table again with the link '
+        'Peripheral as SMP initiator and via Security Request; think: every model x {legacy, SC} x initiator link role '
+        'x every answer (honest + each refusal by either user) x 5 think-time patterns (answering user late by '
+        'seconds / by loop turns, the other user late, both late); again: every model x initiator x (X then honest, '
+        'honest then X, X then X then honest) on one connection; a case is non-trivial when phase 2 was '
         'reached on the wire or a refusal was actually given; distinct = distinct descriptor without seed')
 ASSUMPTIONS = [
     'the two users are honest: the typed passkey is the one displayed on the other device (or the agreed one '
@@ -49,16 +65,37 @@ ASSUMPTIONS = [
     'keys preloaded, as tests/self_test.py::test_self_smp_over_classic does',
     'a BR/EDR link key present in only one of the two stores (LinkKey flag negotiated in one direction only) is '
     'counted, not judged; two DIFFERENT link keys are a violation',
+    'hardware model of the delegates (Vol 3 Part H Tables 2.3-2.5): keyboard = KeyboardOnly/KeyboardDisplay, display = '
+    'DisplayOnly/DisplayYesNo/KeyboardDisplay, yes/no = DisplayYesNo/KeyboardDisplay; the plain yes/no confirmation of '
+    'Just Works (delegate.confirm) is answered by every device, as bumble offers it to every device',
+    'a user answers every prompt exactly once, possibly late (think time < 10 virtual s, far below the 300 s budget); '
+    'virtual time does not advance while protocol messages are in flight, so "late by seconds" means after every '
+    'message that could be sent without the answer has been delivered',
+    'pairing again on the same connection is a pairing like any other (the statement quantifies over every pairing); '
+    'the application calls pair() on the same device as before and both users answer afresh; a failed further attempt '
+    'must leave the key store as the earlier completed pairing left it',
+    'pair() on the link Peripheral makes it the SMP initiator (bumble supports this and logs a warning); the virtual '
+    'controller accepts LE Enable Encryption from either link role',
 ]
 MIN_EVENTS = {
     'quick': {'oracle_evals': 30000, 'pairings': 1200, 'paired_both': 900, 'failed_both': 200, 'table_cells': 200,
               'model_checks': 900, 'tamper_applied': 60, 'reconnect_checks': 150, 'wire_commit_checks': 900,
               'spec_key_checks': 900, 'authenticated_flag_checks': 2500, 'provider_queries': 1000,
-              'passkey_bit_checks': 3000, 'numeric_value_checks': 80},
+              'passkey_bit_checks': 3000, 'numeric_value_checks': 80,
+              'pairings_initiated_by_link_peripheral': 1400, 'peripheral_initiated_table_cells': 200,
+              'security_request_table_cells': 200, 'hardware_prompt_checks': 11000, 'think_time_cases': 2000,
+              'late_refusal_cases': 350, 'refusal_with_late_peer_cases': 90, 'late_honest_answers_paired': 1300,
+              'answers_given_after_think_time': 2800, 'not_encrypted_after_failure_checks': 1000,
+              'further_attempts_on_same_connection': 450},
     'thorough': {'oracle_evals': 600000, 'pairings': 25000, 'paired_both': 18000, 'failed_both': 4000,
                  'table_cells': 200, 'model_checks': 18000, 'tamper_applied': 600, 'reconnect_checks': 3000,
                  'wire_commit_checks': 18000, 'spec_key_checks': 18000, 'authenticated_flag_checks': 50000,
-                 'provider_queries': 20000, 'passkey_bit_checks': 60000, 'numeric_value_checks': 1500},
+                 'provider_queries': 20000, 'passkey_bit_checks': 60000, 'numeric_value_checks': 1500,
+                 'pairings_initiated_by_link_peripheral': 12000, 'peripheral_initiated_table_cells': 2000,
+                 'security_request_table_cells': 2000, 'hardware_prompt_checks': 90000, 'think_time_cases': 14000,
+                 'late_refusal_cases': 3500, 'refusal_with_late_peer_cases': 900, 'late_honest_answers_paired': 9000,
+                 'answers_given_after_think_time': 20000, 'not_encrypted_after_failure_checks': 8000,
+                 'further_attempts_on_same_connection': 4500},
 }
 CASE_TIMEOUT = 180
 
@@ -1471,8 +1508,13 @@ LEVEL_TEXT = ('Two real bumble devices pair over the virtual LE link: all 5x5x{l
               'patterns exhaustively, ~1200 (quick) / ~30000 (thorough) sampled asymmetric configurations (SC/MITM/bonding per '
               'side, four key-distribution masks, who starts, user answers, passkey boundary values, seeded order-preserving '
               'delays), every negative answer and every single-bit in-flight corruption of Confirm/Random/DHKey Check/Public '
-              'Key per association model, reconnection in same and swapped roles after bonding, OOB and SMP over BR/EDR. '
-              'Oracles: both-sides outcome agreement bounded in virtual time; association model from delegate-call logs and '
+              'Key per association model, reconnection in same and swapped roles after bonding, OOB and SMP over BR/EDR; '
+              'the whole table again with the link Peripheral as SMP initiator and via Security Request, with delegates '
+              'that refuse what their IO capability cannot do; every answer of every model given late (seconds / loop '
+              'turns) by either user; further pairings on the same connection after a failed or a completed one. '
+              'Oracles: both-sides outcome agreement bounded in virtual time; no completion while the own user still looks '
+              'at a prompt, no encrypted link and an unchanged key store after a refusal; no prompt the IO capability cannot '
+              'serve; association model from delegate-call logs (by SMP role) and '
               'from recomputing the commitments on the wire with an independent AES/CMAC/P-256 toolbox against a table '
               'transcribed from Vol 3 Part H Table 2.8; key actually used for encryption vs the key the peripheral host would '
               'answer with; distributed values on the wire vs both stores; authenticated flag vs model used. Exploration, not proof.')
